@@ -1,7 +1,8 @@
 (** C23 — cryptographic building blocks match their reference definitions.
     Only statements here; proofs live in theories/C23/Proofs.v.  Specs: Rc4.v, Md5.v, Sha2.v,
     Aes.v, Cbc.v, SecHandler.v (each validated by the published vectors as Examples). *)
-From OxVerif Require Import Base.Util C23.Tab C23.Rc4 C23.Md5 C23.Sha2 C23.Aes C23.Cbc C23.SecHandler C23.Model C23.Proofs C23.AesInv C23.AesCbc.
+From OxVerif Require Import Base.Util C23.Tab C23.Rc4 C23.Md5 C23.Sha2 C23.Aes C23.Cbc C23.SecHandler C23.Model C23.Proofs C23.AesInv C23.AesCbc
+  C23.UserHash C23.Alg2B C23.PermsModel C23.R56Model.
 
 (** the RC4 of rc4.rs (as written) is the published RC4, for every non-empty key and all data *)
 Theorem rc4_model_eq_spec : forall key data, key <> [] -> m_rc4 key data = Some (rc4 key data).
@@ -189,3 +190,301 @@ Proof.
   split; [split; [right; reflexivity | reflexivity]|].
   split; [split; reflexivity|]. vm_compute. reflexivity.
 Qed.
+
+(** * Second wave: model = standard for the user-side orchestration, Algorithm 2.B, authentication, Perms *)
+
+(** (1) compute_user_hash is Algorithm 4 (R2) / Algorithm 5 (R3, R4): the significant bytes of U
+    (32 for R2, 16 for R3/R4), for every password, O, P, file id and key length >= 1 *)
+Theorem user_hash_model_eq_spec : forall R n pw O P id, (1 <= n)%nat -> 2 <= R ->
+  firstn (sig_len R) (m_compute_user_hash R n pw O P (Some id)) = alg45_sig R n pw O P id true.
+Proof. exact user_hash_model_eq_spec_thm. Qed.
+Check user_hash_model_eq_spec : forall R n pw O P id, (1 <= n)%nat -> 2 <= R ->
+  firstn (sig_len R) (m_compute_user_hash R n pw O P (Some id)) = alg45_sig R n pw O P id true.
+Print Assumptions user_hash_model_eq_spec.
+
+(** the same with the file identifier absent or present ([idbytes None = []]) *)
+Theorem user_hash_model_eq_spec_opt : forall R n pw O P id, (1 <= n)%nat -> 2 <= R ->
+  firstn (sig_len R) (m_compute_user_hash R n pw O P id) = alg45_sig R n pw O P (idbytes id) true.
+Proof. exact UserHash.user_hash_model_eq_spec_opt. Qed.
+Check user_hash_model_eq_spec_opt : forall R n pw O P id, (1 <= n)%nat -> 2 <= R ->
+  firstn (sig_len R) (m_compute_user_hash R n pw O P id) = alg45_sig R n pw O P (idbytes id) true.
+Print Assumptions user_hash_model_eq_spec_opt.
+
+(** the whole 32-byte entry: Algorithm 5's 16 bytes are followed by 16 zero bytes of padding *)
+Theorem user_hash_model_full : forall R n pw O P id, (1 <= n)%nat -> 2 <= R ->
+  m_compute_user_hash R n pw O P id
+  = if 3 <=? R then alg45_sig R n pw O P (idbytes id) true ++ repeat 0 16
+    else alg45_sig R n pw O P (idbytes id) true.
+Proof. exact UserHash.user_hash_model_full. Qed.
+Check user_hash_model_full : forall R n pw O P id, (1 <= n)%nat -> 2 <= R ->
+  m_compute_user_hash R n pw O P id
+  = if 3 <=? R then alg45_sig R n pw O P (idbytes id) true ++ repeat 0 16
+    else alg45_sig R n pw O P (idbytes id) true.
+Print Assumptions user_hash_model_full.
+
+(** (2) compute_hash_r6_algorithm_2b is Algorithm 2.B of ISO 32000-2: passwords of at most 127 bytes,
+    any salt, u empty (user side) or at most 48 bytes (the U string, owner side).  The byte-sum selector,
+    the zero paddings, the `last <= round - 32` test, the 2048-round cap and the different fuels are bridged. *)
+Theorem alg2b_model_eq_spec : forall pw salt u,
+  (length pw <= 127)%nat -> (length u <= 48)%nat -> bytes_ok pw = true -> bytes_ok u = true ->
+  m_2b pw salt u = Some (alg2b pw salt u).
+Proof. exact alg2b_model_eq_spec_thm. Qed.
+Check alg2b_model_eq_spec : forall pw salt u,
+  (length pw <= 127)%nat -> (length u <= 48)%nat -> bytes_ok pw = true -> bytes_ok u = true ->
+  m_2b pw salt u = Some (alg2b pw salt u).
+Print Assumptions alg2b_model_eq_spec.
+
+(** one round of the loop: model body = steps (a)-(d) of Algorithm 2.B on every reachable state *)
+Theorem alg2b_round_model_eq_spec : forall pw u K, goodK K -> bytes_ok pw = true -> bytes_ok u = true -> (length u <= 48)%nat ->
+  m_2b_round pw u K = alg2b_round pw u K.
+Proof. exact Alg2B.round_eq. Qed.
+Check alg2b_round_model_eq_spec : forall pw u K, goodK K -> bytes_ok pw = true -> bytes_ok u = true -> (length u <= 48)%nat ->
+  m_2b_round pw u K = alg2b_round pw u K.
+Print Assumptions alg2b_round_model_eq_spec.
+
+(** the selector: 16 bytes as a big-endian number mod 3 = their sum mod 3 *)
+Theorem be_word_mod3 : forall l, bytes_ok l = true -> be_word l mod 3 = fold_left N.add l 0 mod 3.
+Proof. exact Alg2B.be_word_mod3. Qed.
+Check be_word_mod3 : forall l, bytes_ok l = true -> be_word l mod 3 = fold_left N.add l 0 mod 3.
+Print Assumptions be_word_mod3.
+
+(** (3) user authentication R2-R4: validate_user_password is Algorithm 6 for every U *)
+Theorem validate_user_model_eq_spec : forall R n pw U O P id, (1 <= n)%nat -> 2 <= R ->
+  m_validate_user R n pw U O P id = alg6 R n pw U O P (idbytes id) true.
+Proof. exact validate_user_model_eq_spec_opt. Qed.
+Check validate_user_model_eq_spec : forall R n pw U O P id, (1 <= n)%nat -> 2 <= R ->
+  m_validate_user R n pw U O P id = alg6 R n pw U O P (idbytes id) true.
+Print Assumptions validate_user_model_eq_spec.
+
+(** sound: an accepted password reproduces the compared prefix of the stored U (32 bytes R2, 16 bytes R3/R4) *)
+Theorem user_auth_sound : forall R n pw U O P id, (1 <= n)%nat -> 2 <= R ->
+  m_validate_user R n pw U O P id = true ->
+  firstn (sig_len R) U = firstn (sig_len R) (m_compute_user_hash R n pw O P id).
+Proof. exact user_auth_sound_thm. Qed.
+Check user_auth_sound : forall R n pw U O P id, (1 <= n)%nat -> 2 <= R ->
+  m_validate_user R n pw U O P id = true ->
+  firstn (sig_len R) U = firstn (sig_len R) (m_compute_user_hash R n pw O P id).
+Print Assumptions user_auth_sound.
+
+(** complete: a password whose computed U agrees with the stored U on that prefix is accepted *)
+Theorem user_auth_complete : forall R n pw U O P id, (1 <= n)%nat -> 2 <= R ->
+  firstn (sig_len R) U = firstn (sig_len R) (m_compute_user_hash R n pw O P id) ->
+  m_validate_user R n pw U O P id = true.
+Proof. exact user_auth_complete_thm. Qed.
+Check user_auth_complete : forall R n pw U O P id, (1 <= n)%nat -> 2 <= R ->
+  firstn (sig_len R) U = firstn (sig_len R) (m_compute_user_hash R n pw O P id) ->
+  m_validate_user R n pw U O P id = true.
+Print Assumptions user_auth_complete.
+
+(** both directions against the standard's value *)
+Theorem user_auth_iff : forall R n pw U O P id, (1 <= n)%nat -> 2 <= R ->
+  (m_validate_user R n pw U O P id = true
+   <-> firstn (sig_len R) U = alg45_sig R n pw O P (idbytes id) true).
+Proof. exact user_auth_iff_thm. Qed.
+Check user_auth_iff : forall R n pw U O P id, (1 <= n)%nat -> 2 <= R ->
+  (m_validate_user R n pw U O P id = true
+   <-> firstn (sig_len R) U = alg45_sig R n pw O P (idbytes id) true).
+Print Assumptions user_auth_iff.
+
+(** the U entry written by compute_user_hash authenticates its own password *)
+Theorem user_auth_selfcheck : forall R n pw O P id, (1 <= n)%nat -> 2 <= R ->
+  m_validate_user R n pw (m_compute_user_hash R n pw O P id) O P id = true.
+Proof. exact user_auth_selfcheck_thm. Qed.
+Check user_auth_selfcheck : forall R n pw O P id, (1 <= n)%nat -> 2 <= R ->
+  m_validate_user R n pw (m_compute_user_hash R n pw O P id) O P id = true.
+Print Assumptions user_auth_selfcheck.
+
+(** R5 / R6: compute_rN_user_hash = Algorithm 8 (a), validate_rN_user_password = Algorithm 11 *)
+Theorem r56_user_hash_model_eq_spec : forall R pw vsalt ksalt, (length pw <= 127)%nat -> bytes_ok pw = true ->
+  m_r56_user_hash R pw vsalt ksalt = Some (alg8_U R pw vsalt ksalt).
+Proof. exact r56_user_hash_model_eq_spec_thm. Qed.
+Check r56_user_hash_model_eq_spec : forall R pw vsalt ksalt, (length pw <= 127)%nat -> bytes_ok pw = true ->
+  m_r56_user_hash R pw vsalt ksalt = Some (alg8_U R pw vsalt ksalt).
+Print Assumptions r56_user_hash_model_eq_spec.
+
+Theorem r56_validate_user_model_eq_spec : forall R pw U, (length pw <= 127)%nat -> bytes_ok pw = true -> (48 <= length U)%nat ->
+  m_r56_validate_user R pw U = Some (b2l (alg11 R pw U)).
+Proof. exact r56_validate_user_model_eq_spec_thm. Qed.
+Check r56_validate_user_model_eq_spec : forall R pw U, (length pw <= 127)%nat -> bytes_ok pw = true -> (48 <= length U)%nat ->
+  m_r56_validate_user R pw U = Some (b2l (alg11 R pw U)).
+Print Assumptions r56_validate_user_model_eq_spec.
+
+(** sound and complete: accepted iff U[0..32] is the SHA-256 (R5) / Algorithm 2.B (R6) hash of
+    password || validation salt U[32..40] *)
+Theorem r56_user_auth_iff : forall R pw U, (length pw <= 127)%nat -> bytes_ok pw = true -> (48 <= length U)%nat ->
+  (m_r56_validate_user R pw U = Some [1] <-> firstn 32 U = hash56 R pw (slice 32 40 U) []).
+Proof. exact r56_user_auth_iff_thm. Qed.
+Check r56_user_auth_iff : forall R pw U, (length pw <= 127)%nat -> bytes_ok pw = true -> (48 <= length U)%nat ->
+  (m_r56_validate_user R pw U = Some [1] <-> firstn 32 U = hash56 R pw (slice 32 40 U) []).
+Print Assumptions r56_user_auth_iff.
+
+Theorem r56_user_auth_selfcheck : forall R pw vsalt ksalt U,
+  (length pw <= 127)%nat -> bytes_ok pw = true -> length vsalt = 8%nat -> length ksalt = 8%nat ->
+  m_r56_user_hash R pw vsalt ksalt = Some U ->
+  length U = 48%nat /\ m_r56_validate_user R pw U = Some [1].
+Proof. exact r56_user_auth_selfcheck_thm. Qed.
+Check r56_user_auth_selfcheck : forall R pw vsalt ksalt U,
+  (length pw <= 127)%nat -> bytes_ok pw = true -> length vsalt = 8%nat -> length ksalt = 8%nat ->
+  m_r56_user_hash R pw vsalt ksalt = Some U ->
+  length U = 48%nat /\ m_r56_validate_user R pw U = Some [1].
+Print Assumptions r56_user_auth_selfcheck.
+
+(** (4) Perms at the model level: compute_perms_entry = Algorithm 10 (P as a u32),
+    validate_r6_perms = Algorithm 13 plus the FF-filler check, and the round trip with real AES *)
+Theorem perms_entry_model_eq_spec : forall P em rnd fkey, length fkey = 32%nat -> (4 <= length rnd)%nat ->
+  m_perms_entry P em rnd fkey = Some (alg10 (wrap32 P) em rnd fkey).
+Proof. exact perms_entry_model_eq_spec_thm. Qed.
+Check perms_entry_model_eq_spec : forall P em rnd fkey, length fkey = 32%nat -> (4 <= length rnd)%nat ->
+  m_perms_entry P em rnd fkey = Some (alg10 (wrap32 P) em rnd fkey).
+Print Assumptions perms_entry_model_eq_spec.
+
+Theorem validate_perms_model_eq_spec : forall perms fkey P, length perms = 16%nat -> length fkey = 32%nat ->
+  m_validate_perms perms fkey P
+  = Some (b2l (bytes_eqb (slice 4 8 (alg13_plain perms fkey)) [255; 255; 255; 255]
+               && alg13_valid perms fkey (wrap32 P))).
+Proof. exact validate_perms_model_eq_spec_thm. Qed.
+Check validate_perms_model_eq_spec : forall perms fkey P, length perms = 16%nat -> length fkey = 32%nat ->
+  m_validate_perms perms fkey P
+  = Some (b2l (bytes_eqb (slice 4 8 (alg13_plain perms fkey)) [255; 255; 255; 255]
+               && alg13_valid perms fkey (wrap32 P))).
+Print Assumptions validate_perms_model_eq_spec.
+
+Theorem perms_roundtrip : forall fkey P em rnd,
+  length fkey = 32%nat -> bytes_ok fkey = true -> length rnd = 4%nat -> bytes_ok rnd = true ->
+  exists perms, m_perms_entry P em rnd fkey = Some perms /\ length perms = 16%nat
+    /\ alg13_plain perms fkey = perms_plain (wrap32 P) em rnd
+    /\ m_validate_perms perms fkey P = Some [1]
+    /\ m_extract_meta perms fkey = Some [if em then 1 else 0].
+Proof. exact perms_model_roundtrip_thm. Qed.
+Check perms_roundtrip : forall fkey P em rnd,
+  length fkey = 32%nat -> bytes_ok fkey = true -> length rnd = 4%nat -> bytes_ok rnd = true ->
+  exists perms, m_perms_entry P em rnd fkey = Some perms /\ length perms = 16%nat
+    /\ alg13_plain perms fkey = perms_plain (wrap32 P) em rnd
+    /\ m_validate_perms perms fkey P = Some [1]
+    /\ m_extract_meta perms fkey = Some [if em then 1 else 0].
+Print Assumptions perms_roundtrip.
+
+(** ... and a Perms entry is rejected for any other permission word (as u32) *)
+Theorem perms_rejects_other_P : forall fkey P P' em rnd,
+  length fkey = 32%nat -> bytes_ok fkey = true -> length rnd = 4%nat -> bytes_ok rnd = true ->
+  wrap32 P' <> wrap32 P ->
+  forall perms, m_perms_entry P em rnd fkey = Some perms -> m_validate_perms perms fkey P' = Some [0].
+Proof. exact perms_model_rejects_other_P_thm. Qed.
+Check perms_rejects_other_P : forall fkey P P' em rnd,
+  length fkey = 32%nat -> bytes_ok fkey = true -> length rnd = 4%nat -> bytes_ok rnd = true ->
+  wrap32 P' <> wrap32 P ->
+  forall perms, m_perms_entry P em rnd fkey = Some perms -> m_validate_perms perms fkey P' = Some [0].
+Print Assumptions perms_rejects_other_P.
+
+(** beyond the brief — the other R5/R6 functions against Algorithms 8 (b), 9, 12, 2.A and the
+    UE / OE key round trips at the model level *)
+Theorem r56_ue_model_eq_spec : forall R pw, (length pw <= 127)%nat -> bytes_ok pw = true ->
+  forall U fkey, length U = 48%nat -> length fkey = 32%nat ->
+  m_r56_ue R pw U fkey = Some (alg8_UE R pw (slice 40 48 U) fkey).
+Proof. exact r56_ue_model_eq_spec_thm. Qed.
+Check r56_ue_model_eq_spec : forall R pw, (length pw <= 127)%nat -> bytes_ok pw = true ->
+  forall U fkey, length U = 48%nat -> length fkey = 32%nat ->
+  m_r56_ue R pw U fkey = Some (alg8_UE R pw (slice 40 48 U) fkey).
+Print Assumptions r56_ue_model_eq_spec.
+
+Theorem r56_recover_user_model_eq_spec : forall R pw, (length pw <= 127)%nat -> bytes_ok pw = true ->
+  forall U UE, (48 <= length U)%nat -> length UE = 32%nat ->
+  m_r56_recover_user R pw U UE = Some (alg2a_user R pw U UE).
+Proof. exact r56_recover_user_model_eq_spec_thm. Qed.
+Check r56_recover_user_model_eq_spec : forall R pw, (length pw <= 127)%nat -> bytes_ok pw = true ->
+  forall U UE, (48 <= length U)%nat -> length UE = 32%nat ->
+  m_r56_recover_user R pw U UE = Some (alg2a_user R pw U UE).
+Print Assumptions r56_recover_user_model_eq_spec.
+
+Theorem r56_user_key_roundtrip : forall R pw, (length pw <= 127)%nat -> bytes_ok pw = true ->
+  forall U fkey, length U = 48%nat -> length fkey = 32%nat -> bytes_ok fkey = true ->
+  exists UE, m_r56_ue R pw U fkey = Some UE /\ length UE = 32%nat
+             /\ m_r56_recover_user R pw U UE = Some fkey.
+Proof. exact r56_user_key_roundtrip_thm. Qed.
+Check r56_user_key_roundtrip : forall R pw, (length pw <= 127)%nat -> bytes_ok pw = true ->
+  forall U fkey, length U = 48%nat -> length fkey = 32%nat -> bytes_ok fkey = true ->
+  exists UE, m_r56_ue R pw U fkey = Some UE /\ length UE = 32%nat
+             /\ m_r56_recover_user R pw U UE = Some fkey.
+Print Assumptions r56_user_key_roundtrip.
+
+Theorem r56_owner_hash_model_eq_spec : forall R pw, (length pw <= 127)%nat -> bytes_ok pw = true ->
+  forall U, bytes_ok (firstn 48 U) = true -> forall vsalt ksalt, length U = 48%nat ->
+  m_r56_owner_hash R pw U vsalt ksalt = Some (alg9_O R pw vsalt ksalt U).
+Proof. exact r56_owner_hash_model_eq_spec_thm. Qed.
+Check r56_owner_hash_model_eq_spec : forall R pw, (length pw <= 127)%nat -> bytes_ok pw = true ->
+  forall U, bytes_ok (firstn 48 U) = true -> forall vsalt ksalt, length U = 48%nat ->
+  m_r56_owner_hash R pw U vsalt ksalt = Some (alg9_O R pw vsalt ksalt U).
+Print Assumptions r56_owner_hash_model_eq_spec.
+
+Theorem r56_validate_owner_model_eq_spec : forall R pw, (length pw <= 127)%nat -> bytes_ok pw = true ->
+  forall U, bytes_ok (firstn 48 U) = true -> forall O, (48 <= length O)%nat -> (48 <= length U)%nat ->
+  m_r56_validate_owner R pw O U = Some (b2l (alg12 R pw O U)).
+Proof. exact r56_validate_owner_model_eq_spec_thm. Qed.
+Check r56_validate_owner_model_eq_spec : forall R pw, (length pw <= 127)%nat -> bytes_ok pw = true ->
+  forall U, bytes_ok (firstn 48 U) = true -> forall O, (48 <= length O)%nat -> (48 <= length U)%nat ->
+  m_r56_validate_owner R pw O U = Some (b2l (alg12 R pw O U)).
+Print Assumptions r56_validate_owner_model_eq_spec.
+
+Theorem r56_owner_auth_iff : forall R pw, (length pw <= 127)%nat -> bytes_ok pw = true ->
+  forall U, bytes_ok (firstn 48 U) = true -> forall O, (48 <= length O)%nat -> (48 <= length U)%nat ->
+  (m_r56_validate_owner R pw O U = Some [1]
+   <-> firstn 32 O = hash56 R pw (slice 32 40 O) (firstn 48 U)).
+Proof. exact r56_owner_auth_iff_thm. Qed.
+Check r56_owner_auth_iff : forall R pw, (length pw <= 127)%nat -> bytes_ok pw = true ->
+  forall U, bytes_ok (firstn 48 U) = true -> forall O, (48 <= length O)%nat -> (48 <= length U)%nat ->
+  (m_r56_validate_owner R pw O U = Some [1]
+   <-> firstn 32 O = hash56 R pw (slice 32 40 O) (firstn 48 U)).
+Print Assumptions r56_owner_auth_iff.
+
+Theorem r56_oe_model_eq_spec : forall R pw, (length pw <= 127)%nat -> bytes_ok pw = true ->
+  forall U, bytes_ok (firstn 48 U) = true ->
+  forall O fkey, length O = 48%nat -> length U = 48%nat -> length fkey = 32%nat -> bytes_ok fkey = true ->
+  m_r56_oe R pw O U fkey = Some (alg9_OE R pw (slice 40 48 O) U fkey).
+Proof. exact r56_oe_model_eq_spec_thm. Qed.
+Check r56_oe_model_eq_spec : forall R pw, (length pw <= 127)%nat -> bytes_ok pw = true ->
+  forall U, bytes_ok (firstn 48 U) = true ->
+  forall O fkey, length O = 48%nat -> length U = 48%nat -> length fkey = 32%nat -> bytes_ok fkey = true ->
+  m_r56_oe R pw O U fkey = Some (alg9_OE R pw (slice 40 48 O) U fkey).
+Print Assumptions r56_oe_model_eq_spec.
+
+Theorem r56_recover_owner_model_eq_spec : forall R pw, (length pw <= 127)%nat -> bytes_ok pw = true ->
+  forall U, bytes_ok (firstn 48 U) = true ->
+  forall O OE, (48 <= length O)%nat -> (48 <= length U)%nat -> length OE = 32%nat ->
+  m_r56_recover_owner R pw O U OE = Some (alg2a_owner R pw O U OE).
+Proof. exact r56_recover_owner_model_eq_spec_thm. Qed.
+Check r56_recover_owner_model_eq_spec : forall R pw, (length pw <= 127)%nat -> bytes_ok pw = true ->
+  forall U, bytes_ok (firstn 48 U) = true ->
+  forall O OE, (48 <= length O)%nat -> (48 <= length U)%nat -> length OE = 32%nat ->
+  m_r56_recover_owner R pw O U OE = Some (alg2a_owner R pw O U OE).
+Print Assumptions r56_recover_owner_model_eq_spec.
+
+Theorem r56_owner_key_roundtrip : forall R pw, (length pw <= 127)%nat -> bytes_ok pw = true ->
+  forall U, bytes_ok (firstn 48 U) = true ->
+  forall O fkey, length O = 48%nat -> length U = 48%nat -> length fkey = 32%nat -> bytes_ok fkey = true ->
+  exists OE, m_r56_oe R pw O U fkey = Some OE /\ length OE = 32%nat
+             /\ m_r56_recover_owner R pw O U OE = Some fkey.
+Proof. exact r56_owner_key_roundtrip_thm. Qed.
+Check r56_owner_key_roundtrip : forall R pw, (length pw <= 127)%nat -> bytes_ok pw = true ->
+  forall U, bytes_ok (firstn 48 U) = true ->
+  forall O fkey, length O = 48%nat -> length U = 48%nat -> length fkey = 32%nat -> bytes_ok fkey = true ->
+  exists OE, m_r56_oe R pw O U fkey = Some OE /\ length OE = 32%nat
+             /\ m_r56_recover_owner R pw O U OE = Some fkey.
+Print Assumptions r56_owner_key_roundtrip.
+
+(** compute_object_key = Algorithm 1 (RC4 keys; the AES "sAlT" variant is private to the library) *)
+Theorem object_key_model_eq_spec : forall key num gen, m_object_key key num gen = alg1 key num gen.
+Proof. exact object_key_model_eq_spec_thm. Qed.
+Check object_key_model_eq_spec : forall key num gen, m_object_key key num gen = alg1 key num gen.
+Print Assumptions object_key_model_eq_spec.
+
+(** non-vacuity of the second-wave implications: concrete accept / reject runs of the models *)
+Example c23_user_auth_example :
+  let O := alg3 3 16 (bytes_of_string "owner") (bytes_of_string "user") in
+  m_validate_user 3 16 (bytes_of_string "user")
+     (m_compute_user_hash 3 16 (bytes_of_string "user") O 4294963392 (Some (unhex "00112233445566778899aabbccddeeff")))
+     O 4294963392 (Some (unhex "00112233445566778899aabbccddeeff")) = true
+  /\ m_validate_user 2 5 (bytes_of_string "wrong")
+     (m_compute_user_hash 2 5 (bytes_of_string "user") O 4294963392 None) O 4294963392 None = false.
+Proof. exact user_hash_example. Qed.
+Example c23_goodK_example : goodK (sha256 []) /\ bytes_ok (bytes_of_string "user") = true.
+Proof. split; [apply sha256_good | reflexivity]. Qed.
